@@ -10,6 +10,7 @@ import (
 	"fmt"
 	"os"
 	"strconv"
+	"strings"
 	"sync"
 	"sync/atomic"
 	"testing"
@@ -185,6 +186,17 @@ func run(sc scenario) (out trialOut) {
 		rl := ratelimiter.SmoothBuilderWithMaxRate[int](time.Hour).WithMaxWaitTime(2 * time.Hour).Build()
 		rl.TryAcquirePermit()
 		pols = []failsafe.Policy[int]{retry(), rl}
+	case "bulkhead-full(retry)":
+		// the waiting policy outermost: the execution is cancelled before it ever reaches the retry policy
+		heldBH = bulkhead.Builder[int](1).WithMaxWaitTime(time.Hour).Build()
+		heldBH.TryAcquirePermit()
+		pols = []failsafe.Policy[int]{heldBH, retry()}
+	case "limiter-wait(retry)":
+		rl := ratelimiter.SmoothBuilderWithMaxRate[int](time.Hour).WithMaxWaitTime(2 * time.Hour).Build()
+		rl.TryAcquirePermit()
+		pols = []failsafe.Policy[int]{rl, retry()}
+	case "timeout-never(retry)":
+		pols = []failsafe.Policy[int]{timeout.With[int](time.Hour), retry()}
 	case "hedge":
 		pols = []failsafe.Policy[int]{hedgepolicy.BuilderWithDelay[int](time.Hour).WithMaxHedges(2).Build()}
 	case "hedge-custom":
@@ -205,7 +217,7 @@ func run(sc scenario) (out trialOut) {
 	default:
 		return fail("harness", "unknown shape %s", sc.Shape)
 	}
-	waitsInPolicy := sc.Shape == "retry(bulkhead-full)" || sc.Shape == "retry(limiter-wait)"
+	waitsInPolicy := sc.Shape == "retry(bulkhead-full)" || sc.Shape == "retry(limiter-wait)" || sc.Shape == "bulkhead-full(retry)" || sc.Shape == "limiter-wait(retry)"
 	isHedgeShape := sc.Shape == "hedge" || sc.Shape == "hedge-custom" || sc.Shape == "timeout(hedge)"
 
 	var invocations atomic.Int32
@@ -444,7 +456,7 @@ func tail(s string, n int) string {
 
 func genScenario(t *rapid.T) scenario {
 	sc := scenario{}
-	sc.Shape = rapid.SampledFrom([]string{"retry", "retry", "fallback(retry)", "retry(fallback)", "retry(breaker)", "retry(bulkhead-full)", "retry(limiter-wait)", "hedge", "hedge-custom", "hedge(retry)", "timeout(retry)", "fallback(timeout(retry))", "timeout(hedge)"}).Draw(t, "shape")
+	sc.Shape = rapid.SampledFrom([]string{"retry", "retry", "fallback(retry)", "retry(fallback)", "retry(breaker)", "retry(bulkhead-full)", "retry(limiter-wait)", "bulkhead-full(retry)", "limiter-wait(retry)", "timeout-never(retry)", "hedge", "hedge-custom", "hedge(retry)", "timeout(retry)", "fallback(timeout(retry))", "timeout(hedge)"}).Draw(t, "shape")
 	timeoutShape := sc.Shape == "timeout(retry)" || sc.Shape == "fallback(timeout(retry))" || sc.Shape == "timeout(hedge)"
 	hedgeShape := sc.Shape == "hedge" || sc.Shape == "hedge-custom" || sc.Shape == "timeout(hedge)"
 	sc.Async = rapid.Bool().Draw(t, "async")
@@ -466,7 +478,7 @@ func genScenario(t *rapid.T) scenario {
 			if sc.Source == "ctx-cancel" {
 				pts = append(pts, "pre")
 			}
-			if !hedgeShape && sc.Shape != "retry(bulkhead-full)" && sc.Shape != "retry(limiter-wait)" {
+			if !hedgeShape && !strings.Contains(sc.Shape, "bulkhead-full") && !strings.Contains(sc.Shape, "limiter-wait") {
 				pts = append(pts, "in-scheduled", "in-scheduled")
 			}
 			sc.Point = rapid.SampledFrom(pts).Draw(t, "point")
@@ -491,7 +503,7 @@ func genScenario(t *rapid.T) scenario {
 			sc.SucceedAt = 1 // a hedge accepts its first attempt's result
 		}
 		sc.BlockAtK = false
-		if sc.Shape == "retry(bulkhead-full)" || sc.Shape == "retry(limiter-wait)" {
+		if strings.Contains(sc.Shape, "bulkhead-full") || strings.Contains(sc.Shape, "limiter-wait") {
 			sc.Shape = "retry"
 		}
 		if sc.Shape == "retry(breaker)" && sc.SucceedAt > 3 {
@@ -503,7 +515,7 @@ func genScenario(t *rapid.T) scenario {
 		if sc.Point == "in-attempt" {
 			sc.K = 1
 		}
-	case sc.Shape == "retry(bulkhead-full)" || sc.Shape == "retry(limiter-wait)":
+	case strings.Contains(sc.Shape, "bulkhead-full") || strings.Contains(sc.Shape, "limiter-wait"):
 		// the first attempt waits inside the policy; the function is never reached
 		if sc.Point == "in-attempt" || sc.Point == "in-scheduled" {
 			sc.Point = "spin"
@@ -583,7 +595,7 @@ func TestCancelRaceSpin(t *testing.T) {
 	per := 2000
 	rapid.Check(t, func(t *rapid.T) {
 		src := rapid.SampledFrom([]string{"result-cancel", "result-cancel", "ctx-cancel"}).Draw(t, "source")
-		shape := rapid.SampledFrom([]string{"retry", "fallback(retry)", "retry(breaker)"}).Draw(t, "shape")
+		shape := rapid.SampledFrom([]string{"retry", "fallback(retry)", "retry(breaker)", "hedge(retry)", "timeout-never(retry)"}).Draw(t, "shape")
 		maxSpin := rapid.SampledFrom([]int{2000, 20000, 100000}).Draw(t, "maxSpinNs")
 		seed := rapid.Uint64().Draw(t, "spinSeed")
 		var wg sync.WaitGroup
